@@ -154,3 +154,32 @@ def loader_state_sources(repo, init, predicate_name):
                     else:
                         got_default = False
     return got_read, got_default
+
+
+def writers_persist_unconditionally(repo, fm_rel, names=("write_service_config", "write_service_meta", "write_encrypted_database", "write_key")):
+    """Every artifact writer of a file manager writes its data argument on every path, except the one early return for a service
+    directory that does not exist.  A writer that also returns early for other reasons ("a file is already there", "nothing
+    changed since my last call") silently drops an accepted upload / state change.  -> [(function, path description)] of offenders,
+    and the number of writers examined."""
+    from .pathsum import summarize
+    from .terms import walk as _twalk
+    from .contract import describe_alt
+    m = repo.module(fm_rel)
+    bad, n = [], 0
+    for nm in names:
+        fi = m.functions.get(nm)
+        if fi is None or len(fi.params) < 2:
+            continue
+        n += 1
+        data = ("var", fi.params[1])
+        for ps in summarize(fi):
+            if ps.exc is not None:
+                continue
+            wrote = any(any(x == data for x in _twalk(t)) for (_nid, t, _f) in ps.calls)
+            if wrote:
+                continue
+            facts = list(ps.facts)
+            missing_dir = len(facts) == 1 and facts[0][0][0] == "truth" and facts[0][0][1].endswith((".exists()", ".is_dir()")) and facts[0][1] is False
+            if not missing_dir:
+                bad.append((fi, describe_alt(ps.facts)))
+    return bad, n
